@@ -4,6 +4,7 @@ from __future__ import annotations
 
 import itertools
 import random
+import re
 import traceback
 
 from amaranth import Elaboratable, Module, Signal
@@ -128,6 +129,16 @@ def run_one(rec, rnd, idx, max_cycles):
             return
         rec.check("C12:design_with_condition_elaborates", True)
         sim.add_clock(1e-6)
+        # the branch transactions created by condition() (after merging they are methods of the manager): observed directly, not through
+        # a witness inside the body (which is gated by the host's own run)
+        tm = top.transaction_manager
+        host_name = e.P.name if hasattr(e.P, "name") else "P"
+        branch_bodies = []
+        for obj in list(tm.methods) + list(tm.transactions):
+            b = obj._body
+            # exactly the bodies named "<host>_cond<k>"; merged transactions are named "<member>_<member>..." and are not branch bodies
+            if re.fullmatch(rf"{re.escape(host_name)}_cond\d+", b.name) and not any(b is x for x in branch_bodies):
+                branch_bodies.append(b)
         inputs = e.cond + e.mr + [e.pr, e.tr, e.cc] + e.orr
         n = len(inputs)
         nb = D["nb"]
@@ -161,6 +172,11 @@ def run_one(rec, rnd, idx, max_cycles):
                 condv = c + ([int(not any(c))] if D["default"] else [])
                 adm = [bool(condv[i]) and all(mr[j] for j in D["br"][i]) for i in range(len(D["br"]))]
                 rec.check("C12:at_most_one_branch_runs", sum(bw) <= 1, case=case, detail=det)
+                for bb in branch_bodies:
+                    brun = ctx.get(bb.run)
+                    rec.check("C03:nested_branch_transaction_runs_only_with_its_enclosing_body", not brun or bool(prun), case=case, detail=dict(det, branch_body=bb.name))
+                    if brun:
+                        rec.count("branch_body_run_cycles")
                 for i, w in enumerate(bw):
                     if not w:
                         continue
